@@ -180,6 +180,23 @@ func vpH_C24_levels() {
 	if vpNondetBool("subinclude") {
 		r.pkgs["a/b"].RegisterSubinclude(vpC24Labels[3])
 	}
+	// an --include filter decides what is printed, never what is followed: one
+	// target (possibly the changed one) lacks the label asked for
+	passes := make([]bool, n)
+	for i := range passes {
+		passes[i] = true
+	}
+	if vpNondetBool("include-filter") {
+		r.state.Include = []string{"wanted"}
+		unlabelled := vpChoice("unlabelled-target", n)
+		for i := 0; i < n; i++ {
+			if i != unlabelled {
+				r.ts[i].AddLabel("wanted")
+			} else {
+				passes[i] = false
+			}
+		}
+	}
 	changed := vpChoice("changed-target", n)
 	file := "f.go"
 	if p := vpC24Labels[changed].PackageName; p != "" {
@@ -195,14 +212,17 @@ func vpH_C24_levels() {
 	}
 	vpAssert("scenario-changes-the-chosen-target", direct[changed])
 	for i := 0; i < n; i++ {
-		if direct[i] {
+		if direct[i] && passes[i] {
 			vpAssert("directly-changed-target-reported", vpHasLabel(got, vpC24Labels[i]))
+		}
+		if !passes[i] {
+			vpAssert("filtered-target-not-printed", !vpHasLabel(got, vpC24Labels[i]))
 		}
 	}
 	if level == 1 {
 		for i := 0; i < n; i++ {
 			for j := 0; j < n; j++ {
-				if adj[i][j] && direct[j] {
+				if adj[i][j] && direct[j] && passes[i] {
 					vpAssert("direct-dependant-reported-at-level-1", vpHasLabel(got, vpC24Labels[i]))
 				}
 			}
@@ -220,7 +240,7 @@ func vpH_C24_levels() {
 			}
 		}
 		for i := 0; i < n; i++ {
-			if affected[i] {
+			if affected[i] && passes[i] {
 				vpAssert("transitive-dependant-reported-at-unlimited-level", vpHasLabel(got, vpC24Labels[i]))
 			}
 		}
